@@ -508,7 +508,7 @@ func selfMixedShort(t *testing.T) {
 		{"chunk id " + sid[:4] + z + "c: removed\nchunk id " + hiC + ": removed", true, false, []string{"C20:coexist:verify-repair-left-damaged-own-chunk", "C20:coexist:verify-repair-left-damaged-own-chunk"}},
 	} {
 		var o hx.Outcome
-		rest := m.verifyNeighbours(&o, dir, false, tc.repair, tc.out, "self-test")
+		rest := m.verifyNeighbours(&o, dir, false, tc.repair, true, tc.out, "self-test")
 		var got []string
 		for _, v := range o.Violations {
 			got = append(got, v.Sig)
@@ -524,11 +524,16 @@ func selfMixedShort(t *testing.T) {
 	classes := map[string]bool{"mixed:none": true}
 	var o hx.Outcome
 	for _, unc := range []bool{false, true} {
-		m.verifyNeighbours(&o, dir, unc, true, "", "self-test")
+		m.verifyNeighbours(&o, dir, unc, true, true, "", "self-test")
 	}
 	m2 := newModel("self-test", sid, chunkIDOf(data), data)
 	m2.plantNeighbours(t.TempDir(), []string{"lo"}, 3, false)
-	m2.verifyNeighbours(&o, dir, false, false, "", "self-test")
+	m2.verifyNeighbours(&o, dir, false, false, true, "", "self-test")
+	var os2 hx.Outcome
+	m2.verifyNeighbours(&os2, dir, false, true, false, "", "self-test") // SkipVerify client: nothing of its own demanded
+	if len(os2.Violations) != 0 {
+		selfFail(t, "neighbour oracle demands something of a SkipVerify client: %v", os2.Violations)
+	}
 	for _, c := range o.Classes {
 		classes[c] = true
 	}
